@@ -806,14 +806,35 @@ def _cell_get(eng, m, args, fr, dty):
     return eng.deref(args[0], fr).v
 
 
+@model(r'^(std::thread::)?LocalKey::<.*>::new$')
+def _localkey_new(eng, m, args, fr, dty):
+    f = args[0]
+    name = f.name if isinstance(f, FnItem) else str(f)
+    return Struct('LocalKeyV', [name.replace('::{constant#0}', '')])
+
+
+def tls_cell(eng, name):
+    """the per-path cell behind a thread_local!; initial value from eng.env['tls'][short name] or its initialiser"""
+    if name not in eng.statics:
+        short = name.split('::')[-1]
+        init = eng.env.get('tls', {}).get(short)
+        if init is None:
+            init = eng.const(name + '::__RUST_STD_INTERNAL_INIT')
+            if isinstance(init, (FnItem, Opaque)):
+                raise Unsupported('thread-local initialiser of ' + name)
+        elif callable(init):
+            init = init()
+        eng.statics[name] = Cell(init, 'static')
+    return eng.statics[name]
+
+
 @model(r'^(std::thread::)?LocalKey::<.*>::with::<.*>$')
 def _localkey_with(eng, m, args, fr, dty):
     key, clo = args
     key = eng.deref(key, fr)
-    # LocalKey { inner: fn(Option<&mut Option<T>>) -> *const T }
-    inner = key.fields[0] if isinstance(key, Struct) else key
-    ptr = eng.call_value(inner, [NONE()], fr)
-    return eng.call_closure(clo, [ptr])
+    if isinstance(key, Struct) and key.ty == 'LocalKeyV':
+        return eng.call_closure(clo, [Ref(tls_cell(eng, key.fields[0]))])
+    raise Unsupported('LocalKey::with on %r' % (key,))
 
 
 # ---------------------------------------------------------------- Range
